@@ -398,7 +398,13 @@ func (k *bridgeKind) snapshot() tr.M {
 			how := "auth"
 			if q%2 == 1 {
 				// the disk fails while the statement runs (rows.Next / Scan), not while it is compiled
-				how, at = "io", 1+rng.Intn(6)
+				// (counted first on the same query)
+				if err := iofault.Arm(k.dbPath(), iofault.Read, 0); err != nil {
+					panic(err)
+				}
+				_, _ = k.node.GetProof(ctx, uint32(p), r.Hash)
+				_, n := iofault.Disarm()
+				how, at = "io", 1+rng.Intn(max(n, 1))
 				if err := iofault.Arm(k.dbPath(), iofault.Read, at); err != nil {
 					panic(err)
 				}
